@@ -492,6 +492,8 @@ def excluded_callers(ctx, F, rid):
                 seen.add(k)
                 if o.kind == 'call' and o.key in ABS_SOURCES:
                     verdict, why = 'abs', '%s in %s' % (o.key.split('::')[-1], body.path.split('::{')[0])
+                elif o.kind == 'call' and str(o.key) in ('std::path::Path::file_name', 'std::path::Path::file_stem', 'std::path::Path::extension'):
+                    verdict, why = 'part', '%s in %s' % (str(o.key).split('::')[-1], body.path.split('::{')[0])
                 elif o.kind == 'call' and o.key in REL_SOURCES:
                     continue
                 elif o.kind == 'call' and (o.key == 'std::iter::Iterator::next' or str(o.key).split('::')[-1] in ('keys', 'into_keys')):
@@ -533,6 +535,10 @@ def excluded_callers(ctx, F, rid):
         if verdict == 'abs':
             ctx.bad(rid, key, 'is_excluded is given a path that is not relative to the synchronised root (%s): the directories the tree itself lives in take part in the '
                     'exclude match, so a pattern that matches the destination\'s own location empties its listing and the whole unchanged tree is sent again' % why, term_loc(b, bb))
+        elif verdict == 'part':
+            ctx.bad(rid, 'is_excluded:called-with-part-of-the-path:%s' % b.path.split('::{')[0].split('::')[-1],
+                    'is_excluded is asked about a part of the path only (%s): a pattern with a slash is matched against the whole relative path and a slash-free one against '
+                    'every component - given just the name, neither can see the directories, so a path those patterns exclude is transferred (and deleted under --delete)' % why, term_loc(b, bb))
         elif verdict == 'unknown':
             ctx.undecided(rid, 'is_excluded call in %s: where its path comes from is not followed (%s)' % (b.path, why))
         else:
